@@ -77,7 +77,9 @@ func (c *Ctx) execInstr(in ssa.Instruction, st *State) {
 		if id, ok := x.Expr.(interface{ String() string }); ok && !x.IsAddr {
 			_ = id
 		}
-		if obj := x.Object(); obj != nil && !x.IsAddr {
+		if obj := x.Object(); obj != nil && !x.IsAddr && !(obj.Pkg() != nil && obj.Parent() == obj.Pkg().Scope()) {
+			// (package-level objects are not local variables: their names in contracts
+			// mean the global, read in the state the clause is evaluated in)
 			c.dbg[obj.Name()] = append(c.dbg[obj.Name()], x.X)
 			if c.dbgObj == nil {
 				c.dbgObj = map[ssa.Value]types.Object{}
